@@ -25,10 +25,12 @@ def actor(aid, kind, ch="", p=0, j=0, fail="", m=0):
     return a
 
 
-def op(actors, chans, sched, connect=None, obs=0):
+def op(actors, chans, sched, connect=None, obs=0, batch=0):
     d = {"actors": actors, "chans": chans, "sched": sched}
     if obs:
         d["obs"] = 1
+    if batch:
+        d["batch"] = 1
     if connect:
         d["connect"] = connect
     return "sched " + json.dumps(d, separators=(",", ":"))
@@ -97,7 +99,9 @@ def gen_fast(rng):
         else:
             sched.append(rng.choice(["H", "R"]))
     # observer connections (JSON / Protobuf x bidirectional / unidirectional, join/leave pushes) on every channel
-    return op(acts, chans, sched, obs=1 if rng.random() < 0.4 else 0)
+    obs = 1 if rng.random() < 0.4 else 0
+    # part of the observed scenarios use per-channel write batching (join/leave/publication pushes are buffered)
+    return op(acts, chans, sched, obs=obs, batch=1 if obs and rng.random() < 0.35 else 0)
 
 
 def gen_mappres(rng):
@@ -670,6 +674,8 @@ def run(ctx, prop):
             ctx.count("connect-time-subs")
         if c.spec.get("obs"):
             ctx.count("observer-connections")
+        if c.spec.get("batch"):
+            ctx.count("channel-batching")
         if any(a.get("m") for a in c.spec["actors"]):
             ctx.count("map-client-presence")
         ctx.count("settled:" + ("closed" if c.final["st"] == 3 else "open"))
@@ -847,7 +853,7 @@ def shrink(ctx, binary, case, oracle, msg0):
     spec = case.spec
 
     def run1(actors, sched):
-        line = op(actors, spec["chans"], sched, connect=spec.get("connect"), obs=spec.get("obs", 0))
+        line = op(actors, spec["chans"], sched, connect=spec.get("connect"), obs=spec.get("obs", 0), batch=spec.get("batch", 0))
         out = ctx.go_run(binary, TEST, [line], timeout=600)
         c = Case(line, out[0] if out else "<missing>")
         return c
